@@ -15,15 +15,22 @@
 (* consumes.  The wire is a bounded FIFO.                                      *)
 (* Toggle FixSessionWriteLock: FALSE = as written (session envelopes bypass    *)
 (* the send mutex), TRUE = serialised with the data writes.                    *)
+(* Toggle FixGracefulClose: FALSE = as written: the terminating side closes    *)
+(* its socket at once; when the peer's data is unread (or still arrives) the   *)
+(* connection is reset and what was written but not yet received - the         *)
+(* terminal session envelope included - is discarded.  TRUE = a close that     *)
+(* lets the written data reach the peer (not implemented: open finding).       *)
 EXTENDS Integers, Sequences, FiniteSets, TLC, ChanProps
 
-CONSTANTS Senders, PerSender, K, W, FixSessionWriteLock
+CONSTANTS Senders, PerSender, K, W, FixSessionWriteLock, FixGracefulClose
 
 VARIABLES spc, sIdx, mu, writers, sState, wire,
           fin,                      \* server's FinishSession: "none" | "checked" | "writing" | "sent" | "closed"
           rpc, held, streams, sesq, cState, rcvDone,
+          peerBusy,                 \* C has written data that S has not read when S closes (traffic in flight towards S)
+          reset,                    \* the connection was reset
           obs
-vars == <<spc, sIdx, mu, writers, sState, wire, fin, rpc, held, streams, sesq, cState, rcvDone, obs>>
+vars == <<spc, sIdx, mu, writers, sState, wire, fin, rpc, held, streams, sesq, cState, rcvDone, peerBusy, reset, obs>>
 
 Kinds == {"msg", "not"}
 KindOf(g, i) == IF i % 2 = 1 THEN "msg" ELSE "not"
@@ -39,46 +46,60 @@ SendCheck(g) ==
      ELSE \* the send returns an error and emits nothing
           /\ sIdx' = [sIdx EXCEPT ![g] = PerSender] /\ UNCHANGED spc
           /\ obs' = Append(obs, [Ev("senderr") EXCEPT !.g = g])
-  /\ UNCHANGED <<mu, writers, sState, wire, fin, rpc, held, streams, sesq, cState, rcvDone>>
+  /\ UNCHANGED <<mu, writers, sState, wire, fin, rpc, held, streams, sesq, cState, rcvDone, peerBusy, reset>>
 SendLock(g) ==
   /\ spc[g] = "checked" /\ mu = "none"
   /\ mu' = g /\ spc' = [spc EXCEPT ![g] = "locked"]
-  /\ UNCHANGED <<sIdx, writers, sState, wire, fin, rpc, held, streams, sesq, cState, rcvDone, obs>>
+  /\ UNCHANGED <<sIdx, writers, sState, wire, fin, rpc, held, streams, sesq, cState, rcvDone, obs, peerBusy, reset>>
 SendWriteBegin(g) ==
   /\ spc[g] = "locked"
   /\ writers' = writers \cup {g} /\ spc' = [spc EXCEPT ![g] = "writing"]
-  /\ UNCHANGED <<sIdx, mu, sState, wire, fin, rpc, held, streams, sesq, cState, rcvDone, obs>>
+  /\ UNCHANGED <<sIdx, mu, sState, wire, fin, rpc, held, streams, sesq, cState, rcvDone, obs, peerBusy, reset>>
 SendWriteEnd(g) ==       \* the envelope is on the wire, the mutex released, Send* returns nil
   /\ spc[g] = "writing" /\ Len(wire) < W
   /\ wire' = Append(wire, Env(g, sIdx[g] + 1))
   /\ writers' = writers \ {g} /\ mu' = "none"
   /\ sIdx' = [sIdx EXCEPT ![g] = @ + 1] /\ spc' = [spc EXCEPT ![g] = "idle"]
   /\ obs' = Append(obs, [Ev("sent") EXCEPT !.g = g, !.i = sIdx[g] + 1, !.kind = KindOf(g, sIdx[g] + 1)])
-  /\ UNCHANGED <<sState, fin, rpc, held, streams, sesq, cState, rcvDone>>
+  /\ UNCHANGED <<sState, fin, rpc, held, streams, sesq, cState, rcvDone, peerBusy, reset>>
 
 (* ---- the server ends the session ---- *)
 FinCheck ==
   /\ fin = "none" /\ sState = "established"
   /\ (FixSessionWriteLock => mu = "none")
   /\ fin' = "checked" /\ mu' = IF FixSessionWriteLock THEN "fin" ELSE mu
-  /\ UNCHANGED <<spc, sIdx, writers, sState, wire, rpc, held, streams, sesq, cState, rcvDone, obs>>
+  /\ UNCHANGED <<spc, sIdx, writers, sState, wire, rpc, held, streams, sesq, cState, rcvDone, obs, peerBusy, reset>>
 FinWriteBegin ==
   /\ fin = "checked"
   /\ writers' = writers \cup {"fin"} /\ fin' = "writing"
-  /\ UNCHANGED <<spc, sIdx, mu, sState, wire, rpc, held, streams, sesq, cState, rcvDone, obs>>
+  /\ UNCHANGED <<spc, sIdx, mu, sState, wire, rpc, held, streams, sesq, cState, rcvDone, obs, peerBusy, reset>>
 FinWriteEnd ==
   /\ fin = "writing" /\ Len(wire) < W
   /\ wire' = Append(wire, FinEnv) /\ writers' = writers \ {"fin"}
   /\ mu' = IF mu = "fin" THEN "none" ELSE mu
   /\ sState' = "finished" /\ fin' = "sent"
   /\ obs' = Append(obs, [Ev("finsent") EXCEPT !.g = "S"])
-  /\ UNCHANGED <<spc, sIdx, rpc, held, streams, sesq, cState, rcvDone>>
+  /\ UNCHANGED <<spc, sIdx, rpc, held, streams, sesq, cState, rcvDone, peerBusy, reset>>
+
+(* the terminating call closes the connection *)
+FinClose ==
+  /\ fin = "sent"
+  /\ fin' = "closed"
+  /\ IF peerBusy /\ ~FixGracefulClose
+     THEN wire' = <<>> /\ reset' = TRUE
+     ELSE UNCHANGED <<wire, reset>>
+  /\ UNCHANGED <<spc, sIdx, mu, writers, sState, rpc, held, streams, sesq, cState, rcvDone, peerBusy, obs>>
 
 (* ---- receiver goroutine on C ---- *)
+RcvReset ==       \* the read fails: the receiver ends, the streams are closed, the state is what it was
+  /\ rpc = "recv" /\ wire = <<>> /\ reset
+  /\ rpc' = "exit" /\ rcvDone' = TRUE
+  /\ obs' = Append(obs, [Ev("closedstreams") EXCEPT !.g = "C"])
+  /\ UNCHANGED <<spc, sIdx, mu, writers, sState, wire, fin, held, streams, sesq, cState, peerBusy, reset>>
 RcvReceive ==
   /\ rpc = "recv" /\ wire # <<>> /\ cState = "established"
   /\ held' = Head(wire) /\ wire' = Tail(wire) /\ rpc' = "route"
-  /\ UNCHANGED <<spc, sIdx, mu, writers, sState, fin, streams, sesq, cState, rcvDone, obs>>
+  /\ UNCHANGED <<spc, sIdx, mu, writers, sState, fin, streams, sesq, cState, rcvDone, obs, peerBusy, reset>>
 RcvRoute ==
   /\ rpc = "route"
   /\ IF held.kind = "ses"
@@ -89,7 +110,7 @@ RcvRoute ==
      ELSE /\ Len(streams[held.kind]) < K + 1      \* K buffered + the one the consumer is about to take
           /\ streams' = [streams EXCEPT ![held.kind] = Append(@, held)]
           /\ rpc' = "recv" /\ UNCHANGED <<sesq, cState, rcvDone, obs>>
-  /\ UNCHANGED <<spc, sIdx, mu, writers, sState, wire, fin, held>>
+  /\ UNCHANGED <<spc, sIdx, mu, writers, sState, wire, fin, held, peerBusy, reset>>
 
 (* ---- consumer on C: a dispatch loop or a stream reader, possibly slow ---- *)
 Consume(kind) ==
@@ -97,23 +118,24 @@ Consume(kind) ==
   /\ LET e == Head(streams[kind]) IN
      obs' = Append(obs, [Ev("delivered") EXCEPT !.g = e.g, !.i = e.i, !.kind = e.kind])
   /\ streams' = [streams EXCEPT ![kind] = Tail(@)]
-  /\ UNCHANGED <<spc, sIdx, mu, writers, sState, wire, fin, rpc, held, sesq, cState, rcvDone>>
+  /\ UNCHANGED <<spc, sIdx, mu, writers, sState, wire, fin, rpc, held, sesq, cState, rcvDone, peerBusy, reset>>
 
 Quiet == /\ \A g \in Senders : spc[g] = "idle" /\ sIdx[g] = PerSender
-         /\ (fin \in {"none", "sent"}) /\ (rpc = "exit" \/ (wire = <<>> /\ rpc = "recv"))
+         /\ (fin \in {"none", "closed"}) /\ (rpc = "exit" \/ (wire = <<>> /\ rpc = "recv" /\ ~reset))
          /\ \A k \in Kinds : streams[k] = <<>>        \* a consumer drains what a closed stream still holds
 End == /\ Quiet /\ ~HasEnd(obs)
        /\ obs' = Append(obs, [Ev("end") EXCEPT !.kind = cState, !.g = IF rcvDone THEN "done" ELSE "open"])
-       /\ UNCHANGED <<spc, sIdx, mu, writers, sState, wire, fin, rpc, held, streams, sesq, cState, rcvDone>>
+       /\ UNCHANGED <<spc, sIdx, mu, writers, sState, wire, fin, rpc, held, streams, sesq, cState, rcvDone, peerBusy, reset>>
 
 Init == /\ spc = [g \in Senders |-> "idle"] /\ sIdx = [g \in Senders |-> 0] /\ mu = "none" /\ writers = {}
         /\ sState = "established" /\ wire = <<>> /\ fin = "none"
         /\ rpc = "recv" /\ held = FinEnv /\ streams = [k \in Kinds |-> <<>>] /\ sesq = <<>>
         /\ cState = "established" /\ rcvDone = FALSE /\ obs = <<>>
+        /\ peerBusy \in BOOLEAN /\ reset = FALSE
 Next == /\ ~HasEnd(obs)
         /\ \/ \E g \in Senders : SendCheck(g) \/ SendLock(g) \/ SendWriteBegin(g) \/ SendWriteEnd(g)
            \/ FinCheck \/ FinWriteBegin \/ FinWriteEnd
-           \/ RcvReceive \/ RcvRoute \/ \E k \in Kinds : Consume(k)
+           \/ FinClose \/ RcvReceive \/ RcvRoute \/ RcvReset \/ \E k \in Kinds : Consume(k)
            \/ End
 Spec == Init /\ [][Next]_vars
 Fair == Spec /\ WF_vars(Next)
